@@ -192,7 +192,8 @@ func (k *Keeper) IterateUndelegationsByStakerAndAsset(
 // end of the block with the provided height.
 func (k *Keeper) GetPendingUndelegationRecKeys(ctx sdk.Context, height uint64) (recordKeyList []string, err error) {
 	store := prefix.NewStore(ctx.KVStore(k.storeKey), types.KeyPrefixPendingUndelegations)
-	iterator := sdk.KVStorePrefixIterator(store, []byte(hexutil.EncodeUint64(height)))
+	// the separator is part of the prefix: without it "0x10" would also match the keys of height "0x100"
+	iterator := sdk.KVStorePrefixIterator(store, []byte(hexutil.EncodeUint64(height)+"/"))
 	defer iterator.Close()
 
 	ret := make([]string, 0)
